@@ -712,17 +712,17 @@ class AsyncFIXConnection:
                 return False
         else:
             self.log.info(f"SequenceReset received from peer: {seqreset_msg}")
+            if int(seqreset_msg[FTag.NewSeqNo]) <= 0:
+                self.log.warning("Ignoring SEQUENCERESET with invalid NewSeqNo")
+                return False
 
         # Cleanup journal of past messages if session was reset to avoid SQL dup errors
         #   Sometimes we might have outdated seq nums in journal
         self._journaler.set_seq_num(
             self._session, next_num_in=int(seqreset_msg[FTag.MsgSeqNum])
         )
-
-        # Set journal at new NewSeqNo
-        self._journaler.set_seq_num(
-            self._session, next_num_in=int(seqreset_msg[FTag.NewSeqNo])
-        )
+        # Journal is set at new NewSeqNo by _finalize_message(), after message itself
+        #   is journaled (otherwise stored inbound seq num lags behind NewSeqNo)
         return True
 
     async def _finalize_message(self, msg: FIXMessage, raw_msg: bytes):
@@ -749,6 +749,12 @@ class AsyncFIXConnection:
         self._message_last_time = time.time()
 
         self._journaler.persist_msg(raw_msg, self._session, MessageDirection.INBOUND)
+
+        if msg.msg_type == FMsg.SEQUENCERESET:
+            # Set journal at new NewSeqNo
+            self._journaler.set_seq_num(
+                self._session, next_num_in=int(msg[FTag.NewSeqNo])
+            )
 
     async def _process_testrequest(self, testreq_msg: FIXMessage):
         """Handles TestRequest(35=1).
